@@ -3444,3 +3444,24 @@ mod tests {
         }
     }
 }
+
+// ========================================================================
+// Verification hooks (only with `--cfg crrl_verif`).
+
+#[cfg(crrl_verif)]
+impl Point {
+    /// Raw internal coordinates (E, U, Z, T).
+    pub fn verif_coords(&self) -> [GF255e; 4] {
+        [self.E, self.U, self.Z, self.T]
+    }
+
+    /// Rebuild a point from raw internal coordinates (not validated).
+    pub fn verif_from_coords(c: &[GF255e; 4]) -> Self {
+        Self { E: c[0], U: c[1], Z: c[2], T: c[3] }
+    }
+
+    /// Access to the private scalar splitting function.
+    pub fn verif_split_mu(k: &Scalar) -> (u128, u32, u128, u32) {
+        Self::split_mu(k)
+    }
+}
